@@ -117,11 +117,14 @@ end ops
 
 /-- basic guarantee over whole histories: whatever throws, the history never commits a lifetime fault (nothing is leaked, destroyed
     twice or read after being moved from), the container stays usable after every exception and ends in a valid state; operations
-    with the strong guarantee leave the list unchanged when they throw (`Trace.thrown` with `strong`) -/
+    with the strong guarantee leave the list unchanged when they throw (`Trace.thrown` with `strong`); no heap block allocated
+    along the way is left behind except the one the container owns (`Owned`) -/
 theorem C09_history {cfg : Cfg} {Ok : VB → Prop} (L : VecLaws α cfg Ok) (c : Nat) (ops : List (OpSpec α)) (hops : ∀ o ∈ ops, IsVecOp cfg o)
-    (m : Mem α) (xs : List α) (hv : VRep cfg Ok c m xs) (hi : HInv m) (hs : Safe cfg ops xs) (hcat : ∀ o ∈ ops, o.nonTC = true → m.cat ≠ .tc) :
-    Post (runHist cfg c ops) m (fun res m' => res = .ok () ∧ ∃ ys, Trace cfg ops xs ys ∧ VRep cfg Ok c m' ys ∧ HInv m' ∧ m'.cat = m.cat) :=
-  vector_history L c ops hops m xs hv hi hs hcat
+    (m : Mem α) (xs : List α) (hv : VRep cfg Ok c m xs) (hi : HInv m) (hs : Safe cfg ops xs) (hcat : ∀ o ∈ ops, o.nonTC = true → m.cat ≠ .tc)
+    (n0 : Nat) (ho : Owned cfg c n0 m) :
+    Post (runHist cfg c ops) m (fun res m' => res = .ok () ∧ ∃ ys, Trace cfg ops xs ys ∧ VRep cfg Ok c m' ys ∧ HInv m' ∧ m'.cat = m.cat
+      ∧ Owned cfg c n0 m') :=
+  vector_history L c ops hops m xs hv hi hs hcat n0 ho
 
 /- the law packages hold for the code as it is now (regenerated and re-proved on every run) -/
 theorem C09_laws_small_U8 (cfg : Cfg) (hfl : cfg.flavour = .small) (hops : cfg.ops = Gen.U8.svbOps) (hN : cfg.n < Gen.U8.kMax) (hN0 : 0 < cfg.n) :
